@@ -165,11 +165,11 @@ def content_key(content):
 # generated C++ libraries (real producer: `interrogate`)
 _MACROS = ("MAKE_PROPERTY", "MAKE_PROPERTY2", "MAKE_SEQ", "MAKE_SEQ_PROPERTY", "MAKE_MAP_PROPERTY", "MAKE_MAP_KEYS_SEQ")
 VDEFS = ("#ifndef VDEFS_H\n#define VDEFS_H\n#ifdef CPPPARSER\n#define PUBLISHED __published\n"
-         "#define BEGIN_PUBLISH __begin_publish\n#define END_PUBLISH __end_publish\n"
+         "#define BEGIN_PUBLISH __begin_publish\n#define END_PUBLISH __end_publish\n#define EXTENSION(x) __extension x\n"
          + "".join("#define %s(n, ...) __%s(n, __VA_ARGS__)\n" % (m, m.lower()) for m in _MACROS)
-         + "#else\n#undef PUBLISHED\n#undef BEGIN_PUBLISH\n#undef END_PUBLISH\n"
+         + "#else\n#undef PUBLISHED\n#undef BEGIN_PUBLISH\n#undef END_PUBLISH\n#undef EXTENSION\n"
          + "".join("#undef %s\n" % m for m in _MACROS)
-         + "#define PUBLISHED public\n#define BEGIN_PUBLISH\n#define END_PUBLISH\n"
+         + "#define PUBLISHED public\n#define BEGIN_PUBLISH\n#define END_PUBLISH\n#define EXTENSION(x) x\n"
          + "".join("#define %s(n, ...)\n" % m for m in _MACROS)
          + "#endif\n#endif\n")
 
@@ -679,6 +679,80 @@ PUBLISHED:
   };
 };
 """)
+    # types the builder starts to define and then removes again (function types), so that the index space has
+    # holes: function-pointer typedefs, data members, globals, parameters, return types, pointers to members
+    H["fnptr0"] = _hdr("fnptr0", """
+class Target { PUBLISHED: Target(); int v; int method(int a); };
+typedef void (*Callback)(int);
+typedef int (*BinOp)(int, int);
+typedef int (Target::*MemFn)(int);
+typedef int Target::*MemPtr;
+class Handler {
+PUBLISHED:
+  Handler();
+  Callback on_event;
+  int (*filter)(double);
+  BinOp op;
+  MemFn member_fn;
+  MemPtr member_ptr;
+  int level;
+  void set_callback(Callback cb);
+  Callback get_callback() const;
+  void with_fn(int (*fn)(int, int));
+  void with_mem(MemFn f);
+  int (*fetch_filter() const)(double);
+  int get_priority() const;
+  void set_priority(int p);
+  MAKE_PROPERTY(prio, get_priority, set_priority);
+};
+BEGIN_PUBLISH
+extern Callback global_cb;
+extern int (*global_fp)(int);
+int run_handlers(int n, Callback cb = 0);
+END_PUBLISH
+""")
+    H["odd0"] = _hdr("odd0", """
+class Incomplete;
+class Payload { PUBLISHED: Payload(); int v; };
+template<class T> struct Slot { PUBLISHED: Slot(); T value; T *ptr; T get() const; void set(const T &v); };
+typedef Slot<int> IntSlot;
+typedef Slot<Payload> PayloadSlot;
+class Odd {
+PUBLISHED:
+  Odd();
+  unsigned int bits : 3;
+  int small : 5;
+  int table[4];
+  Payload items[2];
+  struct { int ax; int ay; } anon_struct;
+  union { int ui; float uf; } anon_union;
+  Incomplete *inc_ptr;
+  IntSlot slot;
+  PayloadSlot *pslot;
+  int priority;
+  void with_ref(Incomplete &r);
+  void with_cref(const Incomplete &r);
+  void with_rref(Payload &&t);
+  void with_arr(int arr[], int n);
+  void with_arr2(const Payload arr[2]);
+  Incomplete &get_inc();
+  const Incomplete *get_cinc() const;
+  decltype(priority) get_priority() const;
+  auto get_auto() const -> int;
+  Payload &&steal();
+  IntSlot *get_slot();
+};
+""")
+    H["ext0"] = _hdr("ext0", """
+class Ext {
+PUBLISHED:
+  Ext();
+  EXTENSION(int ext(int v));
+  EXTENSION(static Ext *make_ext());
+  int plain(int v);
+  EXTENSION(int plain(double v));
+};
+""")
     H["stat0"] = _hdr("stat0", """
 class Counter {
 PUBLISHED:
@@ -856,7 +930,8 @@ def raw_to_model(raw):
         "f": rec("f", lambda x: dict(sn=x["sn"], n=x["n"], isget=bool(x["fl"] & 0x10), isset=bool(x["fl"] & 0x20),
                                      lib=x["lib"], gl=bool(x["fl"] & 1), method=bool(x["fl"] & 4), cls=x["cls"],
                                      cw=x["cw"], pw=x["pw"])),
-        "t": rec("t", lambda x: dict(tn=x["tn"], n=x["n"], cn=x["n"].split("<")[0].strip(), sn=x["sn"], lib=x["lib"], fd=bool(x["fd"]), gl=bool(x["gl"]),
+        "t": rec("t", lambda x: dict(tn=x["tn"], n=x["n"], cn=x["n"].split("<")[0].strip(), sn=x["sn"], lib=x["lib"],
+                                     ptr=bool(x["fl"] & 0x100), cst=bool(x["fl"] & 0x200), fd=bool(x["fd"]), gl=bool(x["gl"]),
                                      outer=x["outer"], wrapped=x["wrapped"], ctors=x["ctors"], dtor=x["dtor"], elems=x["elems"],
                                      methods=x["methods"], mseqs=x["mseqs"], casts=x["casts"],
                                      derivs=[dict(base=d["base"], up=d["up"], down=d["down"]) for d in x["derivs"]],
@@ -998,3 +1073,15 @@ def field_coverage(raws):
             if any(test(r) for r in raw[kind] if "null" not in r):
                 cov[lab] += 1
     return cov
+
+
+# the header whose known finding C11-wstring-atomic-string it reproduces; generated only once the finding is listed
+WSTR0 = _hdr("wstr0", """
+class Wide {
+PUBLISHED:
+  Wide();
+  void take(const wchar_t *w, const char *s);
+  const wchar_t *give() const;
+  int plain(const char *s);
+};
+""")
